@@ -30,6 +30,8 @@ pub mod sched {
         fn before_send(&self, id: u64, ok: bool);
         /// worker thread: the result has been sent
         fn sent(&self, id: u64);
+        /// coordinator thread: the done/total counters at the top of the receive loop
+        fn progress(&self, _done: usize, _total: usize) {}
         /// coordinator thread: top of the receive loop (may block)
         fn main_yield(&self);
         /// coordinator thread: a result was received
@@ -50,6 +52,11 @@ pub mod sched {
         CTRL.with(|x| x.borrow().clone())
     }
 
+    pub fn progress(done: usize, total: usize) {
+        if let Some(c) = current() {
+            c.progress(done, total);
+        }
+    }
     pub fn main_yield() {
         if let Some(c) = current() {
             c.main_yield();
